@@ -126,6 +126,10 @@ let run (args : (string * string) list) : string =
        add "m_offdeg" (okf' (if acc_offdeg le cs p (nat_of_int nn) bits = Some isc then "" else "differs"));
        add "m_offdeg_from" (okf' (first_bad (fun k ->
            if acc_offdeg_from le cs p offs bits (n_of_int k) = Some (skipn k isc) then ""
+           else Printf.sprintf "k:%d" k) ks));
+       add "m_offdeg_ring" (okf' (if acc_offdeg_ring le cs p (nat_of_int nn) bits = Some isc then "" else "differs"));
+       add "m_offdeg_from_ring" (okf' (first_bad (fun k ->
+           if acc_offdeg_from_ring le cs p offs bits (n_of_int k) = Some (skipn k isc) then ""
            else Printf.sprintf "k:%d" k) ks))
      | None -> ());
     Buffer.contents res
